@@ -44,7 +44,7 @@ class C09(InterpProp):
             '(all true) by the checking side')
 
     def knobs(self, rnd, tier):
-        return gen.Knobs(contracts=self.with_contracts, max_states=rnd.choice([6, 10, 16]))
+        return gen.Knobs(contracts=self.with_contracts, max_states=rnd.choice([6, 10, 16]), shared_code=rnd.choice([0.06, 0.06, 0.25]))
 
     def gen_case(self, rnd, tier):
         self._third = rnd.choice([False, False, 'checking', 'ignoring'])
